@@ -10,7 +10,7 @@ results = json.load(open(out_path)) if os.path.exists(out_path) else {}
 
 
 def run_check(prop, repo):
-    env = dict(os.environ, PYVC_REPO=repo, PYVC_OUT=repo + '/out')
+    env = dict(os.environ, PYVC_REPO=repo, PYVC_OUT=repo + '/out', PYVC_BUDGET_S='200', PYVC_BOUNDED_SECS='30')
     t = time.time()
     r = subprocess.run(['python3-vt', '-m', 'pyvc.check', prop], cwd=VERIF, env=env, capture_output=True, text=True, timeout=3000)
     lines = [l for l in r.stdout.splitlines() if l.startswith(('VIOLATION', 'UNDECIDED', 'UNKNOWN', 'CHECKER', 'KNOWN'))]
